@@ -127,6 +127,20 @@ def maxResid (ps : List P) : Rat := ps.foldl (fun acc p => if acc < orthoResid p
 
 def properRot (r : M3 Rat) : Bool := decide (M3.mul (M3.transpose r) r = M3.one) && decide (r.det = 1)
 
+/-- Python / numpy semantics of one index into an array of length `n`: `i ≥ 0` is position `i`, `i < 0` is position
+`n + i` (`−1` = last, `−n` = first); anything outside `[−n, n)` raises `IndexError` (`none`) -/
+def normIdx (n : Nat) (i : Int) : Option Nat :=
+  if i < 0 then (if -i ≤ (n : Int) then some (n - (-i).toNat) else none)
+  else (if i < (n : Int) then some i.toNat else none)
+
+/-- a whole index list; one bad index refuses the whole call -/
+def normIds (n : Nat) : List Int → Option (List Nat)
+  | [] => some []
+  | i :: r =>
+      match normIdx n i, normIds n r with
+      | some j, some l => some (j :: l)
+      | _, _ => none
+
 /-! ### operations and observations -/
 
 inductive View | pos | quat | se3 | stamps | num | dist
@@ -136,6 +150,8 @@ inductive Op
   | transform (m : Mode) (T : P) (norm : Option Rat)
   | scale (s : Rat)
   | reduce (ids : List Nat)
+  /-- `reduce_to_ids` with signed indices as Python accepts them (negative = from the end); out of range: `IndexError` -/
+  | reduceInt (ids : List Int)
   /-- `downsample(n)`: ids = `linspace(0, num−1, n, dtype=int)` supplied -/
   | downsample (n : Nat) (ids : List Nat)
   /-- `motion_filter`: ids = `filter_by_motion(poses_se3, …)` supplied -/
@@ -221,6 +237,10 @@ def specStep (a : ATraj) : Op → ATraj × Out
   | .transform m T norm => ({ a with items := onPoses (transformFull m T norm) a.items }, .unit)
   | .scale s => ({ a with items := onPoses (List.map (scalePose s)) a.items }, .unit)
   | .reduce ids => ({ a with items := reduceIds a.items ids }, .unit)
+  | .reduceInt ids =>
+      match normIds a.items.length ids with
+      | some l => ({ a with items := reduceIds a.items l }, .unit)
+      | none => (a, .err)
   | .downsample n ids =>
       if a.items.length ≤ n then (a, .unit)
       else if n < 1 then (a, .err)
@@ -349,6 +369,10 @@ def step (s : St) : Op → St × Out
   | .transform m T norm => (s.transform m T norm, .unit)
   | .scale c => (s.scale c, .unit)
   | .reduce ids => (s.reduce ids, .unit)
+  | .reduceInt ids =>
+      match normIds s.numPoses ids with
+      | some l => (s.reduce l, .unit)      -- every cache and the stamps are indexed with the same signed list
+      | none => (s, .err)                  -- numpy raises at the first indexing, before anything is rebound
   | .downsample n ids =>
       if s.numPoses ≤ n then (s, .unit)
       else if n < 1 then (s, .err)
